@@ -214,6 +214,17 @@ impl<A: Codec, const K: usize, S: KmerStorage> Kmer<A, K, S> {
         self.bs.complement(K * A::BITS as usize);
     }
 
+    /// Reverse the order of `A::BITS`-wide symbols for any symbol width
+    fn rev_blocks(&mut self) {
+        let mut ba = self.bs.to_bitarray();
+        let bs: &mut Bs = &mut ba.as_mut()[..Self::BITS];
+        bs.reverse();
+        for chunk in bs.rchunks_exact_mut(A::BITS as usize) {
+            chunk.reverse();
+        }
+        self.bs = S::from_bitslice(bs);
+    }
+
     fn rev_blocks_2(&mut self) {
         // TODO: assert K == 2
         self.bs.rev_blocks_2();
@@ -448,7 +459,11 @@ impl<const K: usize> Complement for Kmer<codec::dna::Dna, K, usize> {}
 
 impl<A: Codec, const K: usize> ReverseMut for Kmer<A, K, usize> {
     fn rev(&mut self) {
-        self.rev_blocks_2();
+        if A::BITS == 2 {
+            self.rev_blocks_2();
+        } else {
+            self.rev_blocks();
+        }
     }
 }
 
